@@ -343,4 +343,25 @@ Proof.
   destruct (G cs [] (eq_sym (app_nil_r cs))) as (H1 & H2 & _). split; assumption.
 Qed.
 
+
+(* ====================================================================== re-indentation *)
+(* two chunks that differ at most in blanks at the edges of the lines of a white-space run *)
+Definition chunk_equiv (c1 c2 : chunk) : Prop :=
+  match c1, c2 with
+  | Trivia s1 i1 e1 r1, Trivia s2 i2 e2 r2 =>
+    (s1 =? 0) = (s2 =? 0) /\ i1 = i2 /\ e1 = e2 /\
+    strip_line_edges (s1 =? 0) (canon_ws (run_code r1)) = strip_line_edges (s1 =? 0) (canon_ws (run_code r2))
+  | Code _ t1, Code _ t2 => t1 = t2
+  | _, _ => False
+  end.
+
+Theorem chunks_reindent cs1 cs2 : Forall2 chunk_equiv cs1 cs2 -> chunks_text W cs1 = chunks_text W cs2.
+Proof.
+  induction 1 as [|c1 c2 r1 r2 Hc _ IH]; [reflexivity|]. unfold chunks_text in *. cbn [flat_map]. rewrite IH. f_equal.
+  destruct c1 as [s1 i1 e1 x1 | j1 t1], c2 as [s2 i2 e2 x2 | j2 t2]; cbn in Hc; try contradiction.
+  - destruct Hc as (Hs & -> & -> & Hn). cbn [chunk_text]. unfold fmt_spaces. rewrite <- Hs.
+    apply fmt_run_depends_on_norm. exact Hn.
+  - subst. reflexivity.
+Qed.
+
 End Chunks.
